@@ -55,6 +55,9 @@ type Fake struct {
 	mu sync.Mutex
 
 	Exist bool // model existence; false = everything exists, nothing changes
+	// RouteByBody: a call that carries no routing database is looked up in the database named inside its request
+	// (C08 does not judge routing - that is C09 - and must not inherit C09's findings)
+	RouteByBody bool
 	Calls []Call
 
 	// existence state (Exist mode); keys "db", "db/coll", "db/coll/part"; value = born stamp (>=1), "default" is born 0
@@ -197,6 +200,8 @@ func (f *Fake) do(c Call, mut bool, needDB, needColl, needParts bool, eff func()
 	defer f.mu.Unlock()
 	db := c.Routed
 	if c.API == "CreateDatabase" || c.API == "DropDatabase" || c.API == "AlterDatabase" || c.API == "DescribeDatabase" {
+		db = c.InDB
+	} else if f.RouteByBody && db == "" && c.InDB != "" {
 		db = c.InDB
 	}
 	var err error
